@@ -170,9 +170,42 @@ def ac_key(e, v):
     return root_skeleton(best[1] if best else e)
 
 
+def twins(w):
+    """Pairs of operands of width w that differ in exactly one field of their root node (or are identical): the
+    canonical order has to tell them apart by every field, otherwise the input order survives simplification."""
+    ex, mi = exprgen.M()
+    I = lambda v, ww=w: exprgen.Int(v, ww)
+    x, y, z = ex.ExprId('x', w), ex.ExprId('y', w), ex.ExprId('z', w)
+    c, d = ex.ExprId('c', 1), ex.ExprId('d', 1)
+    p = ex.ExprId('p', 32)
+    W = {8: 16, 16: 32, 32: 64}[w]
+    X, Y = ex.ExprId('X', W), ex.ExprId('Y', W)
+    gs, ss = ex.ExprId('gs', 16), ex.ExprId('ss', 16)
+    h = w // 2
+    Op = ex.ExprOp
+    cmp_ = lambda a, b: ex.ExprCompose([(a, 0, h), (b, h, w)])
+    xs, ys, zs = ex.ExprSlice(X, 0, h), ex.ExprSlice(Y, 0, h), ex.ExprSlice(X, h, 2 * h)
+    out = [
+        ('cond.src2', ex.ExprCond(c, x, y), ex.ExprCond(c, x, z)), ('cond.src1', ex.ExprCond(c, x, y), ex.ExprCond(c, z, y)),
+        ('cond.cond', ex.ExprCond(c, x, y), ex.ExprCond(d, x, y)), ('cond.arms', ex.ExprCond(c, x, y), ex.ExprCond(c, y, x)),
+        ('cond.src2-int', ex.ExprCond(c, x, I(1)), ex.ExprCond(c, x, I(2))),
+        ('mem.arg', ex.ExprMem(p, w), ex.ExprMem(Op('+', p, I(1, 32)), w)), ('mem.segm-none', ex.ExprMem(p, w), ex.ExprMem(p, w, gs)),
+        ('mem.segm', ex.ExprMem(p, w, gs), ex.ExprMem(p, w, ss)),
+        ('slice.start', ex.ExprSlice(X, 0, w), ex.ExprSlice(X, 1, w + 1)), ('slice.window', ex.ExprSlice(X, 0, w), ex.ExprSlice(X, w, 2 * w)),
+        ('slice.arg', ex.ExprSlice(X, 0, w), ex.ExprSlice(Y, 0, w)),
+        ('compose.arg1', cmp_(xs, ys), cmp_(xs, zs)), ('compose.arg0', cmp_(xs, ys), cmp_(zs, ys)), ('compose.order', cmp_(xs, ys), cmp_(ys, xs)),
+        ('op.operands', Op('-', x, y), Op('-', y, x)), ('op.op', Op('<<', x, y), Op('>>', x, y)), ('op.op2', Op('>>', x, y), Op('a>>', x, y)),
+        ('op.last', Op('<<', x, y), Op('<<', x, z)), ('op.first', Op('<<', x, y), Op('<<', z, y)), ('op.arity', Op('-', x), Op('-', x, y)),
+        ('op.const', Op('<<', x, I(1)), Op('<<', x, I(2))), ('op.rot', Op('<<<', x, I(1)), Op('>>>', x, I(1))),
+        ('id.name', x, ex.ExprId('xx', w)), ('id.case', x, ex.ExprId('X', w)), ('same', ex.ExprCond(c, x, y), ex.ExprCond(c, x, y)),
+        ('mem.size-via-slice', ex.ExprMem(p, w), ex.ExprSlice(ex.ExprMem(p, W), 0, w)),
+    ]
+    return out
+
+
 def shards(tier, seed):
     n = 64 if tier == 'quick' else 1200
-    return [('tmpl', w) for w in (8, 32)] + [('rand', i) for i in range(n)]
+    return [('tmpl', w) for w in (8, 32)] + [('twins', w) for w in (8, 16, 32)] + [('rand', i) for i in range(n)]
 
 
 def run_shard(shard, tier, seed):
@@ -182,6 +215,16 @@ def run_shard(shard, tier, seed):
         rng = common.rng_for(0, 'C13t', shard[1])
         for fam, t in templates(shard[1]):
             check_tree(sh, t, rng)
+        return sh
+    if shard[0] == 'twins':
+        ex, mi = exprgen.M()
+        rng = common.rng_for(0, 'C13w', shard[1])
+        w = shard[1]
+        y = ex.ExprId('y', w)
+        for name, a, b in twins(w):
+            for op in exprgen.AC:
+                for e in (ex.ExprOp(op, a, b), ex.ExprOp(op, a, y, b), ex.ExprOp(op, ex.ExprOp(op, b, exprgen.Int(3, w)), a)):
+                    check_tree(sh, e, rng)
         return sh
     rng = common.rng_for(seed, 'C13', shard[1])
     g = exprgen.Gen(rng, ops=('+', '*', '^', '&', '|'))
